@@ -32,6 +32,9 @@ CONSTANTS
     TunnelKinds,          \* kinds that carry raw TCP tunnels: only they can hold "mute" work -- a tunnel whose
                           \* client has sent EOF while the upstream neither answers nor closes
     GrpcKinds,            \* the kinds served by a gRPC server
+    LateStartKinds,       \* kinds whose server may still be starting: it is in the registry of servers, but has not
+                          \* been handed its listener yet (the two steps of proxy.serve) -- a signal during start-up
+    LateListenerLeaks,    \* deviation: a server that was shut down before it got its listener serves it all the same
     MaxServers,           \* size of a configuration
     MaxItems,             \* work items per server
     MaxStart,             \* shutdown starts at clock 0..MaxStart
@@ -47,9 +50,11 @@ VARIABLES
     tret,       \* clock at Return (-1 before)
     listening,  \* kind -> BOOLEAN
     items,      \* sequence of [srv, dur, at, left, st]   st: "run" | "done" | "cut"
-    srvdone     \* kind -> BOOLEAN: this server's shutdown has returned
+    srvdone,    \* kind -> BOOLEAN: this server's shutdown has returned
+    serving,    \* kind -> BOOLEAN: the server has been handed its listener
+    late        \* the kinds that were handed their listener after shutdown had begun
 
-vars == <<kinds, clock, phase, tstart, tret, listening, items, srvdone>>
+vars == <<kinds, clock, phase, tstart, tret, listening, items, srvdone, serving, late>>
 
 Kinds == {KindOrder[i] : i \in DOMAIN KindOrder}
 Durs == {DurOrder[i] : i \in DOMAIN DurOrder}
@@ -66,6 +71,8 @@ Init ==
     /\ listening = [k \in kinds |-> TRUE]
     /\ items = <<>>
     /\ srvdone = [k \in kinds |-> FALSE]
+    /\ serving \in {f \in [kinds -> BOOLEAN] : \A k \in kinds : ~f[k] => k \in LateStartKinds}
+    /\ late = {}
 
 \* Items accepted within one tick are listed in a canonical order (they are concurrent; the
 \* order carries no information).
@@ -78,31 +85,40 @@ Canonical(k, d) ==
 
 \* a listener accepts a connection / request / stream
 Accept(k, d) ==
-    /\ listening[k]
+    /\ listening[k] /\ serving[k]
     /\ d = "mute" => k \in TunnelKinds
     /\ Cardinality(ItemsOf(k)) < MaxItems
     /\ Canonical(k, d)
     /\ items' = Append(items, [srv |-> k, dur |-> d, at |-> clock, left |-> Dur[d], st |-> "run"])
-    /\ UNCHANGED <<kinds, clock, phase, tstart, tret, listening, srvdone>>
+    /\ UNCHANGED <<kinds, clock, phase, tstart, tret, listening, srvdone, serving, late>>
+
+\* The server is handed its listener.  If it has been told to shut down in the meantime it closes the
+\* listener at once instead of accepting from it.
+StartServe(k) ==
+    /\ ~serving[k]
+    /\ serving' = [serving EXCEPT ![k] = TRUE]
+    /\ listening' = [listening EXCEPT ![k] = (phase = "running") \/ LateListenerLeaks]
+    /\ late' = IF phase = "running" THEN late ELSE late \cup {k}
+    /\ UNCHANGED <<kinds, clock, phase, tstart, tret, items, srvdone>>
 
 \* the work ends by itself: it completed normally
 Finish(i) ==
     /\ items[i].st = "run" /\ items[i].left = 0
     /\ items' = [items EXCEPT ![i].st = "done"]
-    /\ UNCHANGED <<kinds, clock, phase, tstart, tret, listening, srvdone>>
+    /\ UNCHANGED <<kinds, clock, phase, tstart, tret, listening, srvdone, serving, late>>
 
 \* proxy.Shutdown(W) is called: every listener is closed
 ShutdownStart ==
     /\ phase = "running"
     /\ phase' = "shutting" /\ tstart' = clock
     /\ listening' = [k \in kinds |-> FALSE]
-    /\ UNCHANGED <<kinds, clock, tret, items, srvdone>>
+    /\ UNCHANGED <<kinds, clock, tret, items, srvdone, serving, late>>
 
 \* a server whose work has drained is done
 Drain(k) ==
     /\ phase = "shutting" /\ ~srvdone[k] /\ Running(k) = {}
     /\ srvdone' = [srvdone EXCEPT ![k] = TRUE]
-    /\ UNCHANGED <<kinds, clock, phase, tstart, tret, listening, items>>
+    /\ UNCHANGED <<kinds, clock, phase, tstart, tret, listening, items, serving, late>>
 
 ObeysDeadline(k) == ~(k \in GrpcKinds /\ GrpcIgnoresDeadline)
 
@@ -112,12 +128,12 @@ Deadline(k) ==
     /\ ObeysDeadline(k)
     /\ items' = [i \in DOMAIN items |-> IF i \in Running(k) THEN [items[i] EXCEPT !.st = "cut"] ELSE items[i]]
     /\ srvdone' = [srvdone EXCEPT ![k] = TRUE]
-    /\ UNCHANGED <<kinds, clock, phase, tstart, tret, listening>>
+    /\ UNCHANGED <<kinds, clock, phase, tstart, tret, listening, serving, late>>
 
 Return ==
     /\ phase = "shutting" /\ \A k \in kinds : srvdone[k]
     /\ phase' = "returned" /\ tret' = clock
-    /\ UNCHANGED <<kinds, clock, tstart, listening, items, srvdone>>
+    /\ UNCHANGED <<kinds, clock, tstart, listening, items, srvdone, serving, late>>
 
 \* Time passes.  Work that is due ends first; at the deadline the servers act before the clock
 \* moves on (that is what "plus scheduling slack" bounds in reality).
@@ -132,12 +148,13 @@ Tick ==
     /\ clock' = clock + 1
     /\ items' = [i \in DOMAIN items |->
                    IF items[i].st = "run" /\ items[i].left > 0 THEN [items[i] EXCEPT !.left = @ - 1] ELSE items[i]]
-    /\ UNCHANGED <<kinds, phase, tstart, tret, listening, srvdone>>
+    /\ UNCHANGED <<kinds, phase, tstart, tret, listening, srvdone, serving, late>>
 
 AcceptAny == \E k \in kinds, d \in Durs : Accept(k, d)
 FinishAny == \E i \in DOMAIN items : Finish(i)
 DrainAny == \E k \in kinds : Drain(k)
 DeadlineAny == \E k \in kinds : Deadline(k)
+StartServeAny == \E k \in kinds : StartServe(k)
 
 Next ==
     \/ AcceptAny
@@ -145,6 +162,7 @@ Next ==
     \/ ShutdownStart
     \/ DrainAny
     \/ DeadlineAny
+    \/ StartServeAny
     \/ Return
     \/ Tick
 
